@@ -4,6 +4,7 @@ import (
 	"context"
 	"hash"
 	"os"
+	"sync"
 
 	digest "github.com/opencontainers/go-digest"
 	"github.com/tonistiigi/fsutil/types"
@@ -34,12 +35,21 @@ func VH_C08_schedules() {
 	if nfiles >= 2 {
 		view.entries = append(view.entries, mk("e", vh_clsFile, []byte("c")))
 	}
+	if v.Param("EMPTY", 0) != 0 {
+		view.entries = append(view.entries, mk("e0", vh_clsFile, nil)) // an empty file: its only DATA packet is the terminator
+	}
 	if nfiles >= 3 {
 		view.entries = append(view.entries, mk("g", vh_clsFile, []byte("xyz")))
 	}
 	// further (empty) directories keep the STAT stream going while the first requests come in
 	for i := 0; i < int(v.Param("NDIRS", 0)); i++ {
 		view.entries = append(view.entries, mk("h"+string(rune('0'+i)), vh_clsDir, nil))
+	}
+	// FAULT=1: the walk fails at the last entry, after files were announced (and possibly requested): the
+	// sender reports the error while content may still be in flight
+	fault := v.Param("FAULT", 0) != 0
+	if fault {
+		view.walkErrAt = len(view.entries) - 1
 	}
 	// dirty prior destination: an older "e" and a stale entry
 	m.MkFile(dest+"/e", []byte("old"), 0600, 7, 7, 5)
@@ -51,14 +61,19 @@ func VH_C08_schedules() {
 		dgst digest.Digest
 	}
 	events := map[string][]ev{}
+	var cbMu sync.Mutex // the callbacks may be invoked from several goroutines
 	opt := ReceiveOpt{
 		ContentHasher: func(st *types.Stat) (hash.Hash, error) {
 			r := &vh_recHash{}
 			r.Write(vh_headerOf(st))
+			cbMu.Lock()
 			recs[st.Path] = r
+			cbMu.Unlock()
 			return r, nil
 		},
 		NotifyHashed: func(kind ChangeKind, p string, fi os.FileInfo, err error) error {
+			cbMu.Lock()
+			defer cbMu.Unlock()
 			e := ev{kind: kind}
 			if fi != nil {
 				if d, ok := fi.(interface{ Digest() digest.Digest }); ok {
@@ -82,8 +97,24 @@ func VH_C08_schedules() {
 		recvErr = Receive(ctx, s2, dest, opt)
 		close(recvDone)
 	}()
+	if fault {
+		// once one call has given up, the transport goes away (the peer may still be blocked in a
+		// stream call and returns only then: C04)
+		select {
+		case <-recvDone:
+		case <-sendDone:
+		}
+		s1.Break()
+	}
 	<-recvDone
 	<-sendDone
+	if fault {
+		v.Assert(sendErr != nil && recvErr != nil, "a failing walk makes both calls fail on every schedule")
+		v.Assert(!s1.overlap && !s2.overlap, "neither end ever has two SendMsg or two RecvMsg calls in flight on its stream")
+		v.Assert(v.Goroutines() == 0, "no goroutine is left behind")
+		v.Cover("done")
+		return
+	}
 	v.Assert(sendErr == nil && recvErr == nil, "both calls succeed on every schedule")
 	v.Assert(!s1.overlap && !s2.overlap, "neither end ever has two SendMsg or two RecvMsg calls in flight on its stream")
 	v.Assert(v.Goroutines() == 0, "no goroutine is left behind")
